@@ -47,6 +47,11 @@
              | (4 r cid nonce)                merge, ff=never
              | (5 r cid)                      merge, fast-forward
              | (6 (pobj ...) ((r cid force) ...))   fetch: receive the packfile objects, then save refs
+             | (9 r rr (pobj ...) cid force table nonce)   `wrgl pull b<r> origin refs/heads/b<rr-10>:
+                                              refs/remotes/origin/b<rr-10>` through the real CLI against the
+                                              reference server; observation = (status ref-writes verdicts refs ())
+                                              with one verdict per ref write (crash right before it) + one for
+                                              the completed run
              | (7)                            prune
              | (8 (pobj ...) ((r cid force) ...))   fetch, same model; the Go side runs the exported
                                               fetch.Fetch against the in-process reference server
@@ -533,7 +538,15 @@ Inductive op :=
 | OMergeNoFF (r : N) (other : cid) (nonce : N)
 | OMergeFF (r : N) (other : cid)
 | OFetch (objs : list pobj) (upd : list (N * cid * bool))
-| OPrune.
+| OPrune
+| OPull (r rr : N) (objs : list pobj) (c : cid) (force : bool) (t : table) (nonce : N).
+(** [OPull r rr objs c force t nonce] = `wrgl pull BRANCH REMOTE REFSPEC` (pull_cmd.go
+    pullSingleRepo): fetch the remote branch (advertised commit [c]) into the remote-tracking
+    ref [rr]; then, when the local branch [r] does NOT exist - whatever else the name may
+    resolve to, e.g. the remote-tracking ref of an earlier, interrupted pull - create it at the
+    fetched commit (ref.SaveRef, action "pull"); when it exists and differs from the fetched
+    commit, runMerge (fast-forward or a real merge whose result table is [t]); else "Already up
+    to date". *)
 
 Definition flag_of (r : N) (s : state) : bool :=
   match get_ref r s with Some (_, f) => f | None => false end.
@@ -556,21 +569,45 @@ Definition ff_writes (s : state) (r : N) (h o : cid) : list write * bool :=
   else if is_anc o h then ([SetRefLog r h (flag_of r s)], true)
   else ([], false).
 
+(** runMerge BRANCH COMMIT... *)
+Definition merge_op_writes (sk : skels) (sched : schedule) (s : state) (r : N) (others : list cid)
+    (t : table) (nonce : N) : list write * bool :=
+  match head_of r s with
+  | None => ([], false)
+  | Some h =>
+      if others_ok s others then
+        if diverged h others
+        then (merge_commit_writes sk sched r (Cid t (h :: others) nonce), true)
+        else match others with [o1] => ff_writes s r h o1 | _ => ([], false) end
+      else ([], false)
+  end.
+
+(** what pull does after its fetch succeeded, in the state [s1] the fetch left *)
+Definition pull_tail (sk : skels) (sched : schedule) (s1 : state) (r rr : N) (t : table) (nonce : N)
+    : list write * bool :=
+  match head_of rr s1 with
+  | None => ([], false)           (* "nothing to create ref from" *)
+  | Some c' =>
+      match head_of r s1 with
+      | None => ([SetRefLog r c' false], true)
+      | Some h => if cid_eqb c' h then ([], true)      (* "Already up to date." *)
+                  else merge_op_writes sk sched s1 r [c'] t nonce
+      end
+  end.
+
+Definition pull_writes (sk : skels) (dv : deriver) (sched : schedule) (s : state) (r rr : N)
+    (objs : list pobj) (c : cid) (force : bool) (t : table) (nonce : N) : list write * bool :=
+  let '(wf, okf) := fetch_writes sk dv s objs [(rr, c, force)] in
+  if okf then
+    let '(wt, okt) := pull_tail sk sched (apply_all wf s) r rr t nonce in (wf ++ wt, okt)
+  else (wf, false).
+
 Definition op_writes (sk : skels) (dv : deriver) (sched : schedule) (s : state) (o : op) : list write * bool :=
   match o with
   | OCommit r t nonce => (commit_writes sk sched s r t nonce, true)
   | OCommitTable r t nonce => (commit_with_table_writes sk s r t nonce, true)
   | ODelHead r => ([DelRef r], true)
-  | OMergeCommit r others t nonce =>
-      match head_of r s with
-      | None => ([], false)
-      | Some h =>
-          if others_ok s others then
-            if diverged h others
-            then (merge_commit_writes sk sched r (Cid t (h :: others) nonce), true)
-            else match others with [o1] => ff_writes s r h o1 | _ => ([], false) end
-          else ([], false)
-      end
+  | OMergeCommit r others t nonce => merge_op_writes sk sched s r others t nonce
   | OMergeNoFF r other nonce =>
       match head_of r s with
       | None => ([], false)
@@ -589,6 +626,7 @@ Definition op_writes (sk : skels) (dv : deriver) (sched : schedule) (s : state) 
       end
   | OFetch objs upd => fetch_writes sk dv s objs upd
   | OPrune => (prune_writes sk s, true)
+  | OPull r rr objs c force t nonce => pull_writes sk dv sched s r rr objs c force t nonce
   end.
 
 Definition run_op (sk : skels) (dv : deriver) (sched : schedule) (s : state) (o : op) : state :=
@@ -667,6 +705,8 @@ Definition d_op (t : tree) : op :=
   | 4 => OMergeNoFF (d_N (d_nth 1 t)) (d_cid (d_nth 2 t)) (d_N (d_nth 3 t))
   | 5 => OMergeFF (d_N (d_nth 1 t)) (d_cid (d_nth 2 t))
   | 6 | 8 => OFetch (d_list d_pobj (d_nth 1 t)) (d_list d_upd (d_nth 2 t))
+  | 9 => OPull (d_N (d_nth 1 t)) (d_N (d_nth 2 t)) (d_list d_pobj (d_nth 3 t)) (d_cid (d_nth 4 t))
+               (d_bool (d_nth 5 t)) (d_table (d_nth 6 t)) (d_N (d_nth 7 t))
   | _ => OPrune
   end.
 
@@ -759,11 +799,26 @@ Definition run_C13_sk (sk : skels) (c : tree) : tree :=
     let '(ws2, ok2) := op_writes sk dv sequential sn o2 in
     let f2 := apply_all ws2 sn in
     Node [t_bool (inv_b sn); t_bool (Bool.eqb ok2 ok && inv_b f2 && obs_eqb f2 final); Leaf 1] in
+  let is_ref (w : write) := match w with SetRefLog _ _ _ | DelRef _ => true | _ => false end in
+  let ref_positions :=
+    (fix go (l : list write) (i : nat) : list nat :=
+       match l with [] => [] | w :: l' => if is_ref w then i :: go l' (S i) else go l' (S i) end) ws 0%nat in
+  match o with
+  | OPull _ _ _ _ _ _ _ =>
+      (* run through the real CLI on badger + sqlite: only the ref store can be observed and
+         faulted; one verdict per ref write (crash right before it) and one for the completed run *)
+      Node [ Leaf (if ok then 0 else 1);
+             Node (map t_write (filter is_ref ws));
+             Node (map verdict (ref_positions ++ [length ws]));
+             Node (sort_trees (map ref_entry (refs final)));
+             Node [] ]
+  | _ =>
   Node [ Leaf (if ok then 0 else 1);
          Node (canon_trace ws);
          Node (map verdict (seq 0 (S (length ws))));
          Node (sort_trees (map ref_entry (refs final)));
          Node [t_nat (length (commits final)); t_nat (length (tables final)); t_nat (length (tblidx final));
-               t_nat (length (prof final)); t_nat (length (blocks final)); t_nat (length (blkidx final))] ].
+               t_nat (length (prof final)); t_nat (length (blocks final)); t_nat (length (blkidx final))] ]
+  end.
 
 Definition run_C13 : tree -> tree := run_C13_sk base_skels.
